@@ -48,3 +48,76 @@ reg("C04",
     kernel_groups=["SolverK"],
     partial_clauses=["float rounding (linearity is exact over the reals; the oracle tolerates 1e-10 relative in double, 3e-5 in single)"],
     assumptions=["shooting denominator non-zero (does not involve the source)"])
+
+
+def T(mod, ns, names, kind="property"):
+    return [("%s.%s" % (ns, n), mod, kind) for n in names]
+
+
+reg("C01",
+    T("Proofs.C01", "BLDFM.C01", ["layer_is_taylor3", "sweep_uses_node_i", "column_recurrence", "column_bottom_flux",
+                                  "column_top_condition", "column_unique", "eigval_sq", "eigval_decaying",
+                                  "mean_mode_trapezoid", "one_step_convergence"])
+    + T("Proofs.Lemmas.Csqrt", "BLDFM.Spec", ["csqrt_sq", "csqrt_re_nonneg", "csqrt_re_pos"], "lemma") + SOLVER_BRIDGES,
+    kernel_groups=["SolverK"],
+    partial_clauses=["first-order convergence of the boundary-value solution to the CONTINUOUS variable-coefficient problem for arbitrary smooth profiles, "
+                     "and the 2.5x-per-quartering figure: decided numerically by the oracle (Riccati reference) only; Mathlib has no BVP theory"],
+    assumptions=["shooting denominator non-zero", "exact real/complex arithmetic"])
+
+reg("C02",
+    T("Proofs.C02", "BLDFM.C02", ["coef_is_transfer_times_source", "transfer_indep_mode"])
+    + T("Proofs.C06", "BLDFM.C06", ["footprint_phase_on_grid"])
+    + T("Proofs.C04", "BLDFM.C04", ["footprint_indep_source_values"]) + SOLVER_BRIDGES,
+    kernel_groups=["SolverK"],
+    partial_clauses=["single-precision storage rounding",
+                     "the summation over the grid (exchange of sums + definition of the padded-source DFT) is proved at the level of the spectral "
+                     "coefficients; the assembled field identity sum(q*F) = f[jm,im] is decided by the oracle on the real code"],
+    assumptions=["on-grid measurement point", "shooting denominator non-zero"])
+
+reg("C03",
+    T("Proofs.C03", "BLDFM.C03", ["dc_flux_conserved", "dc_conc_resistance", "footprint_unit_spectrum", "dc_phase_unit",
+                                  "dc_slot_position", "halo_is_zero_padding"])
+    + T("Proofs.C01", "BLDFM.C01", ["mean_mode_trapezoid"]) + SOLVER_BRIDGES,
+    kernel_groups=["SolverK"],
+    partial_clauses=["float rounding", "horizontal mean = (0,0) coefficient (orthogonality of the DFT) and the full halo-equivalence field identity are decided by the oracle"],
+    assumptions=["double precision for the exact statements"])
+
+reg("C05",
+    T("Proofs.C05", "BLDFM.C05", ["analytic_is_closed_form", "analytic_mean_linear", "closed_form_solves_bvp", "layer_eigenvector",
+                                  "ivp_uniform_product", "numeric_uniform_product", "uniform_T_eq"])
+    + T("Proofs.C01", "BLDFM.C01", ["layer_is_taylor3", "column_unique"]) + SOLVER_BRIDGES,
+    kernel_groups=["SolverK"],
+    partial_clauses=["the literal 'about eightfold per halving' (asymptotic consequence of the p3 factor): checked numerically by the order oracle"],
+    assumptions=["Kz > 0", "shooting denominator non-zero", "eigenvalue non-zero (non-constant mode)"])
+
+reg("C06",
+    T("Proofs.C06", "BLDFM.C06", ["footprint_phase_on_grid", "tower_shift_phase", "recentre_guard_origin", "recentre_phase"])
+    + T("Proofs.Lemmas.Phase", "BLDFM.Spec", ["rootPow_add", "rootPow_add_mul", "twiddle_pos", "twiddle_neg", "waveX_cells", "waveY_cells"], "lemma")
+    + SOLVER_BRIDGES,
+    kernel_groups=["SolverK"],
+    partial_clauses=["float rounding", "source-shift and point-reflection at field level (DFT shift theorem through the model's dft2) are decided by the oracle"],
+    assumptions=["dx, dy non-zero"])
+
+reg("C07",
+    T("Proofs.C07", "BLDFM.C07", ["column_mirrorX", "column_mirrorY", "column_swap", "columnAna_symm", "layer_length_similarity",
+                                  "ivp_length_similarity", "eigval_length", "column_length_similarity", "layer_velocity_similarity",
+                                  "ivp_velocity_similarity", "eigval_velocity", "column_velocity_similarity"])
+    + T("Proofs.Lemmas.Csqrt", "BLDFM.Spec", ["csqrt_div_sq"], "lemma") + SOLVER_BRIDGES,
+    kernel_groups=["SolverK"],
+    partial_clauses=["float rounding", "Nyquist components (no partner under the mirror) — excluded by the statement"],
+    assumptions=["scale factor s > 0", "Kz at the top node non-zero", "shooting denominator non-zero (velocity similarity)"])
+
+reg("C10",
+    T("Proofs.C10", "BLDFM.C10", ["slices_by_level", "full_column_slice", "slice_count", "level_range_checked"]) + SOLVER_BRIDGES,
+    kernel_groups=["SolverK"],
+    partial_clauses=[],
+    assumptions=["levels are non-negative node indices"])
+
+reg("C11",
+    T("Proofs.C11", "BLDFM.C11", ["out_shape", "registered", "untrunc_hit", "untrunc_miss", "trunc_hit", "geom_admissible",
+                                  "clamp_taken", "clamp_equiv", "no_clamp", "odd_modes_rejected"])
+    + T("Proofs.Lemmas.Index", "BLDFM.Index", ["trunc_index", "untrunc_index_hit", "untrunc_index_window", "slotPos_inj", "clamp_admissible"], "lemma")
+    + SOLVER_BRIDGES,
+    kernel_groups=["SolverK"],
+    partial_clauses=["mixed clamp (512, 4) -> (Nx, Ny) is the implemented behaviour ('Setting both equal'); listed, not raised"],
+    assumptions=[])
